@@ -4,7 +4,7 @@ Extracted: the early-return tests of `Catcher.__exit__` in source order, the eff
 `__exit__` (flag set / `_log` inside try / flag reset in finally / onerror / `return not reraise`),
 the depth increment for decorators, the `return not reraise` kernel, the `from_decorator` constants
 of the two `Catcher(...)` constructions, the shape of the four wrapper branches of
-`Catcher.__call__`, the pass-through `athrow` and `aclose`, and the delegation of `__aenter__/__aexit__`.
+`Catcher.__call__`, the pass-through `athrow` and `aclose`, `__anext__` = `asend(None)`, the `_frames` depth adjustment, and the delegation of `__aenter__/__aexit__`.
 Fails closed on any other shape.
 """
 import ast
@@ -41,9 +41,17 @@ def _is_return_const(stmt, value):
 
 
 def _exit(fn):
-    """returns (tests, effects, depth_incr, return_expr)"""
-    if [a.arg for a in fn.args.args] != ["self", "type_", "value", "traceback_"]:
+    """returns (tests, effects, depth_incr, return_expr, default_frames)"""
+    ar = fn.args
+    if [a.arg for a in ar.args] != ["self", "type_", "value", "traceback_"] or ar.vararg or ar.kwarg \
+            or ar.posonlyargs or ar.defaults:
         raise Unsupported("__exit__ signature: " + U(fn.args))
+    # keyword-only `_frames=<int>`: extra frames between __exit__ and the block (set by __aexit__)
+    if [a.arg for a in ar.kwonlyargs] != ["_frames"] or len(ar.kw_defaults) != 1 \
+            or not isinstance(ar.kw_defaults[0], ast.Constant) or type(ar.kw_defaults[0].value) is not int \
+            or ar.kw_defaults[0].value < 0:
+        raise Unsupported("__exit__ signature (expected keyword-only _frames=<n>): " + U(fn.args))
+    default_frames = ar.kw_defaults[0].value
     body = _strip_doc(fn.body)
     tests = []
     i = 0
@@ -65,6 +73,7 @@ def _exit(fn):
     depth_incr = None
     flag = "logger._core.thread_locals.already_logging_exception"
     saw_options = False
+    saw_frames = False
     ret_expr = None
     for st in rest:
         s = U(st)
@@ -87,7 +96,14 @@ def _exit(fn):
             if depth_incr < 0:
                 raise Unsupported("negative depth adjustment")
             continue
+        if s == "depth += _frames" or s == "depth = depth + _frames":
+            if depth_incr is None or saw_frames or effects:
+                raise Unsupported("`depth += _frames` is misplaced or repeated")
+            saw_frames = True
+            continue
         if s == "catch_options = [(type_, value, traceback_), depth, True, *options]":
+            if not saw_frames:
+                raise Unsupported("catch_options built before `depth += _frames`")
             continue
         if s == flag + " = True":
             effects.append("setFlag")
@@ -110,9 +126,9 @@ def _exit(fn):
             effects.append("returnNotReraise")
             continue
         raise Unsupported("unexpected statement in __exit__: " + s)
-    if not saw_options or depth_incr is None or ret_expr is None:
-        raise Unsupported("__exit__ misses options/depth/return")
-    return tests, effects, depth_incr, ret_expr
+    if not saw_options or depth_incr is None or ret_expr is None or not saw_frames:
+        raise Unsupported("__exit__ misses options/depth/_frames/return")
+    return tests, effects, depth_incr, ret_expr, default_frames
 
 
 def _call_args_ok(call):
@@ -152,9 +168,9 @@ def _asyncgen_branch(stmts, catcher_name):
     if [U(b) for b in cls.bases] != ["AsyncGenerator"] or cls.keywords or cls.decorator_list:
         raise Unsupported("wrapper class bases: " + U(cls)[:80])
     ms = _methods(cls)
-    if sorted(ms) != ["__init__", "aclose", "asend", "athrow"]:
+    if sorted(ms) != ["__anext__", "__init__", "aclose", "asend", "athrow"]:
         raise Unsupported("wrapper class methods: %s" % sorted(ms))
-    if len([n for n in cls.body if not (isinstance(n, ast.Expr) and isinstance(n.value, ast.Constant))]) != 4:
+    if len([n for n in cls.body if not (isinstance(n, ast.Expr) and isinstance(n.value, ast.Constant))]) != 5:
         raise Unsupported("wrapper class has other members")
     if U(ms["__init__"].args) != "self, gen" or [U(s) for s in _strip_doc(ms["__init__"].body)] != ["self._gen = gen"]:
         raise Unsupported("wrapper __init__")
@@ -166,6 +182,12 @@ def _asyncgen_branch(stmts, catcher_name):
                  "        pass\n    except:\n        raise" % catcher_name)
     if len(body) != 2 or U(body[0]) != want_with or U(body[1]) != "raise StopAsyncIteration":
         raise Unsupported("asend body: " + U(a))
+    n = ms["__anext__"]
+    # a plain method returning the asend coroutine itself, so that the frame awaiting `__anext__`
+    # (the `async for`) is the caller of `asend` exactly as for an explicit `asend(None)`
+    if not isinstance(n, ast.FunctionDef) or U(n.args) != "self" or n.decorator_list \
+            or [U(s) for s in _strip_doc(n.body)] != ["return self.asend(None)"]:
+        raise Unsupported("__anext__ is not `return self.asend(None)`: " + U(n))
     t = ms["athrow"]
     if not isinstance(t, ast.AsyncFunctionDef) or U(t.args) != "self, *args, **kwargs" \
             or [U(s) for s in _strip_doc(t.body)] != ["return await self._gen.athrow(*args, **kwargs)"]:
@@ -208,11 +230,19 @@ def generate():
         if not isinstance(ms["__aenter__"], ast.AsyncFunctionDef) or \
                 [U(s) for s in _strip_doc(ms["__aenter__"].body)] != ["return self.__enter__()"]:
             raise Unsupported("Catcher.__aenter__ does not delegate to __enter__")
-        if not isinstance(ms["__aexit__"], ast.AsyncFunctionDef) or U(ms["__aexit__"].args) != "self, type_, value, traceback_" \
-                or [U(s) for s in _strip_doc(ms["__aexit__"].body)] != ["return self.__exit__(type_, value, traceback_)"]:
+        ax = ms["__aexit__"]
+        axb = _strip_doc(ax.body)
+        if not isinstance(ax, ast.AsyncFunctionDef) or U(ax.args) != "self, type_, value, traceback_" or len(axb) != 1 \
+                or not isinstance(axb[0], ast.Return) or not isinstance(axb[0].value, ast.Call):
             raise Unsupported("Catcher.__aexit__ does not delegate to __exit__")
+        axc = axb[0].value
+        if U(axc.func) != "self.__exit__" or [U(a) for a in axc.args] != ["type_", "value", "traceback_"] \
+                or [k.arg for k in axc.keywords] != ["_frames"] or not isinstance(axc.keywords[0].value, ast.Constant) \
+                or type(axc.keywords[0].value.value) is not int or axc.keywords[0].value.value < 0:
+            raise Unsupported("Catcher.__aexit__ is not `return self.__exit__(type_, value, traceback_, _frames=<n>)`: " + U(axb[0]))
+        async_frames = axc.keywords[0].value.value
 
-        tests, effects, depth_incr, ret_expr = _exit(ms["__exit__"])
+        tests, effects, depth_incr, ret_expr, sync_frames = _exit(ms["__exit__"])
         term, typ = Tr({"reraise": ("reraise", "bool")}).tr(ret_expr)
         if typ != "bool":
             raise Unsupported("__exit__ return expression is not boolean")
@@ -268,6 +298,9 @@ def generate():
         body += "/-- statements of `Catcher.__exit__` after the tests, in source order -/\n"
         body += "def exitEffects : List ExitEffect := [%s]\n\n" % ", ".join("." + e for e in effects)
         body += "/-- `if from_decorator: depth += %d` -/\ndef depthIncr : Nat := %d\n\n" % (depth_incr, depth_incr)
+        body += "/-- `depth += _frames`; `__exit__(…, *, _frames=%d)` as the `with` statement calls it; " \
+                "`__aexit__` calls `self.__exit__(…, _frames=%d)` (its own frame sits between) -/\n" % (sync_frames, async_frames)
+        body += "def syncExitFrames : Nat := %d\ndef asyncExitFrames : Nat := %d\n\n" % (sync_frames, async_frames)
         body += "/-- `return %s` -/\ndef exitReturn (reraise : Bool) : Bool := %s\n\n" % (U(ret_expr), term)
         body += "/-- `catcher = Catcher(%s)` in `__call__`, `return Catcher(%s)` at the end of `catch()` -/\n" % (
             dec_from_decorator, ctx_from_decorator)
@@ -281,6 +314,8 @@ def generate():
         body += "def athrowPassThrough : Bool := true\n"
         body += "/-- `AsyncGenCatchWrapper.aclose` is `return await self._gen.aclose()` -/\n"
         body += "def aclosePassThrough : Bool := true\n"
+        body += "/-- `AsyncGenCatchWrapper.__anext__` is the plain method `return self.asend(None)` -/\n"
+        body += "def anextIsAsendNone : Bool := true\n"
         body += "/-- `__aenter__/__aexit__` return `self.__enter__()` / `self.__exit__(type_, value, traceback_)` -/\n"
         body += "def asyncContextDelegates : Bool := true\n"
     except (Unsupported, SyntaxError, KeyError, AttributeError, IndexError) as e:
